@@ -4,6 +4,7 @@ import Driver.GraphOps
 import Driver.RouterOps
 import Driver.FsOps
 import Driver.PosOps
+import Driver.ReaderOps
 import Driver.UriOps
 
 open Iwe
@@ -45,6 +46,7 @@ def dispatch : Sexp → Except String Sexp
   | .list [.atom "fs.writeFile", .atom a, .str base, .str key, .atom n] =>
     .ok (FsOps.writeFileOp (a == "true") base key (n.toNat?.getD 1))
   | .list (.atom "pos.ranges" :: .str content :: rs) => PosOps.rangesOp content rs
+  | .list [.atom "reader.read", .str content, .list (.atom "events" :: evs)] => ReaderOps.readOp content evs
   | .list [.atom "uri.keyToUrl", .str b, .str k] => .ok (UriOps.keyToUrlOp b k)
   | .list [.atom "uri.urlToKey", .str b, .str u] => .ok (UriOps.urlToKeyOp b u)
   | .list [.atom "uri.safeKey", .str k] => .ok (.atom (if UriOps.safeKey k then "true" else "false"))
